@@ -809,7 +809,9 @@ func ruleErrChain(c *Ctx) {
 
 		// ---- MISSING-member (containers) ------------------------------------------
 		for _, fn := range b.srcFuncs(b.Lib) {
-			if recvTypeName(fn) != "partialDoc" || errResultIndex(fn) < 0 || !isContainerImplMethod(fn) {
+			// (set and add create the member they are given: a lookup there asks whether the
+			// name is listed already, not whether the location exists)
+			if recvTypeName(fn) != "partialDoc" || errResultIndex(fn) < 0 || !isContainerImplMethod(fn) || fn.Name() == "set" || fn.Name() == "add" {
 				continue // only the container-interface methods report absence to the handlers
 			}
 			ei := errResultIndex(fn)
